@@ -67,7 +67,8 @@ fn sanitize(s: &str, max: usize) -> String {
 const PRINT_MACROS: [&str; 4] = ["println", "eprintln", "print", "eprint"];
 
 // method -> renamed shim method (dispatch by shim trait on the receiver type)
-const SHIM_METHODS: [&str; 30] = [
+const SHIM_METHODS: [&str; 31] = [
+    "len",
     "to_string", "join", "trim", "parse", "replace", "to_lowercase", "to_uppercase", "starts_with",
     "ends_with", "contains", "split_once", "to_vec", "concat", "borrow", "eq", "as_ref", "as_bytes",
     "as_str", "extend", "copied", "strip_prefix", "strip_suffix", "trim_matches", "lines", "find",
